@@ -54,6 +54,23 @@ pub struct CallCtx {
     pub r_cur: f64,
     pub r_tgt: f64,
     pub chunk: usize,
+    /// incremented by every reset
+    pub segment: usize,
+}
+
+impl CallCtx {
+    pub fn t_max(&self) -> f64 {
+        (1.0 / self.r_cur).max(1.0 / self.r_tgt)
+    }
+    /// The first step of the call as the fixed-input loops compute it.
+    pub fn first_step(&self) -> f64 {
+        let (t0, t1) = (1.0 / self.r_cur, 1.0 / self.r_tgt);
+        if t0 == t1 {
+            return t0;
+        }
+        let frames = self.chunk as f64 * (0.5 * self.r_cur + 0.5 * self.r_tgt);
+        (t0 + (t1 - t0) / frames).clamp(t0.min(t1), t0.max(t1))
+    }
 }
 
 /// Follow the documented semantics of setters through a history (all setters assumed accepted
@@ -61,6 +78,7 @@ pub struct CallCtx {
 pub fn calls(cfg: &Cfg, history: &[Op]) -> Vec<CallCtx> {
     let mut out = Vec::new();
     let (mut cur, mut tgt, mut chunk) = (cfg.ratio, cfg.ratio, cfg.chunk);
+    let mut segment = 0usize;
     let lo = cfg.ratio / cfg.max_rel * (1.0 - 1e-12);
     let hi = cfg.ratio * cfg.max_rel * (1.0 + 1e-12);
     for (i, op) in history.iter().enumerate() {
@@ -91,6 +109,7 @@ pub fn calls(cfg: &Cfg, history: &[Op]) -> Vec<CallCtx> {
                 cur = cfg.ratio;
                 tgt = cfg.ratio;
                 chunk = cfg.chunk;
+                segment += 1;
             }
             _ => {
                 if op.is_processing() {
@@ -99,6 +118,7 @@ pub fn calls(cfg: &Cfg, history: &[Op]) -> Vec<CallCtx> {
                         r_cur: cur,
                         r_tgt: tgt,
                         chunk,
+                        segment,
                     });
                     cur = tgt;
                 }
@@ -113,33 +133,61 @@ fn argf(args: &Value, name: &str, default: f64) -> f64 {
 }
 
 /// The trigger predicates (fixed vocabulary).
-pub fn trigger(name: &str, args: &Value, cfg: &Cfg, history: &[Op]) -> bool {
+pub fn trigger(name: &str, args: &Value, cfg: &Cfg, history: &[Op], finding: &Value) -> bool {
     let cs = calls(cfg, history);
     let l = cfg.filter_len() as f64;
     match name {
         "always" => true,
         "never" => false,
-        // some processing call is entered with a coarser previous step than the pre-roll covers:
-        // ceil(1/r_end_of_previous_call) - 1/r_first_step_of_this_call > limit
-        "step_down_exceeds_preroll" => {
-            let limit = argf(args, "limit", l - 1.0);
-            cs.windows(2).any(|w| {
-                let t_prev = 1.0 / w[0].r_tgt;
-                let t_new = 1.0 / w[1].r_cur;
-                t_prev.ceil() - t_new > limit
-            })
+        // Fixed-input types: the violating (= last) processing call starts further back than the
+        // 2*filter_len history reaches, because the previous call ended with a step that is
+        // much coarser than the first step of this one:
+        //   ceil(largest step of the previous call) - first step of this call > limit
+        // (limit = what the pre-roll covers: sinc_len-2 for cubic, sinc_len-1 otherwise;
+        //  7 - window offset for the polynomial types)
+        "fixed_in_step_down_exceeds_preroll" => {
+            if !(cfg.kind == Kind::SI || cfg.kind == Kind::FI) || cs.len() < 2 {
+                return false;
+            }
+            let (prev, cur) = (cs[cs.len() - 2], cs[cs.len() - 1]);
+            let limit = match cfg.kind {
+                Kind::SI => match cfg.interp {
+                    crate::cfg::Interp::Cubic => l - 2.0,
+                    _ => l - 1.0,
+                },
+                _ => match cfg.degree {
+                    crate::cfg::Degree::Septic => 4.0,
+                    crate::cfg::Degree::Quintic => 5.0,
+                    crate::cfg::Degree::Cubic => 6.0,
+                    _ => 7.0,
+                },
+            };
+            prev.segment == cur.segment && prev.t_max().ceil() - cur.first_step() > limit
         }
-        // a fixed-input call whose ratio is much higher than the one of the previous call, so
-        // that the carried position (up to ceil(1/r_prev) input frames) yields more extra
-        // output frames than the +10 margin
+        // Fixed-input types: the violating (= last) processing call runs at a much higher ratio
+        // than the previous one ended with; the position carried over (up to ceil(1/r_prev)
+        // input frames) yields more output frames than the fixed +10 margin:
+        //   (ceil(largest step of the previous call) - smallest step of this call) * highest ratio of this call > margin - 2
         "fixed_in_ratio_jump_up" => {
+            if !(cfg.kind == Kind::SI || cfg.kind == Kind::FI) || cs.len() < 2 {
+                return false;
+            }
             let margin = argf(args, "margin", 10.0);
-            cfg.kind.fixed_in()
-                && cs.windows(2).any(|w| {
-                    let t_prev = (1.0 / w[0].r_tgt).max(1.0 / w[0].r_cur);
-                    let r_new = w[1].r_cur.max(w[1].r_tgt);
-                    t_prev.ceil() * r_new > margin
-                })
+            let (prev, cur) = (cs[cs.len() - 2], cs[cs.len() - 1]);
+            let r_hi = cur.r_cur.max(cur.r_tgt);
+            prev.segment == cur.segment && (prev.t_max().ceil() - 1.0 / r_hi) * r_hi > margin - 2.0
+        }
+        // C01: upsampling with f_cutoff = calculate_cutoff and a tone so close to the passband
+        // edge that its first image lies in the near stopband of the window
+        "near_edge_image_upsampling" => {
+            let x = &finding["x"];
+            let w = x["window"].as_str().unwrap_or("");
+            let frac = x["tone_frac"].as_f64().unwrap_or(0.0);
+            let len = x["sinc_len"].as_u64().unwrap_or(0);
+            x["family"] == "sinc"
+                && x["cc"] == true
+                && x["ratio"].as_f64().unwrap_or(0.0) > 1.0
+                && ((w == "Hann" && frac >= 0.9) || ((w == "Hann2" || w == "Blackman") && len == 64 && frac >= 0.999))
         }
         // the last processing call runs a ramp
         "ramp_in_last_call" => cs.last().map(|c| c.r_cur != c.r_tgt).unwrap_or(false),
@@ -201,12 +249,13 @@ pub fn classify<'a>(
     sig: &str,
     cfg: &Cfg,
     history: &[Op],
+    finding: &Value,
 ) -> Option<&'a Entry> {
     entries.iter().find(|e| {
         e.status == "open"
             && e.property == prop
             && (e.kinds.is_empty() || e.kinds.iter().any(|k| k == cfg.kind.name()))
             && (e.sigs.is_empty() || e.sigs.iter().any(|s| sig.starts_with(s.as_str())))
-            && trigger(&e.trigger, &e.args, cfg, history)
+            && trigger(&e.trigger, &e.args, cfg, history, finding)
     })
 }
